@@ -14,7 +14,7 @@ func init() { wk.Register("c20", c20) }
 
 var c20Schemes = []string{"", "http://", "https://", "tg://", "ftp://"}
 var c20Hosts = append(append([]string{}, link.Reserved...),
-	"t.me.evil.com", "xt.me", "T.ME", "Telegram.Me", "tеlegram.me" /* cyrillic e */, "example.com", "t.m", "me", "telegram.org", "")
+	"t.me.evil.com", "xt.me", "T.ME", "tele\u017fco.pe", "telegram.\u017fe", "teleſco.pe", "t.me\u212a", "Telegram.Me", "tеlegram.me" /* cyrillic e */, "example.com", "t.m", "me", "telegram.org", "")
 var c20Ports = []string{"", ":443"}
 var c20Suffix = []string{"", "?a=b", "#frag", "?start=1#frag"}
 
